@@ -41,7 +41,7 @@ def main():
         expected = json.load(open(os.path.join(d, 'meta.json'))).get('expected_alarms', {})
         try:
             res['tests'] = 'skipped' if a.props else sh([os.path.join(V, 'baseline_off.sh')]).returncode
-            for q in (a.props.split(',') if a.props else [p] + REL.get(p, [])):
+            for q in ([p if x == 'own' else x for x in a.props.split(',')] if a.props else [p] + REL.get(p, [])):
                 c = sh(['python3', os.path.join(V, 'vcheck.py'), q, '--tier', 'quick'])
                 keys = re.findall(r'^  key=(.*?) count=', c.stdout, re.M)
                 res[q] = {'exit': c.returncode, 'keys': keys[:4]}
